@@ -45,7 +45,7 @@ Definition dump_nl (nl : netlist) : list (list Z) * list (list Z) :=
 
 (* the model's result netlist, and the Output traces of that result under the
    reference semantics from the given initial state *)
-Definition opt_case (p reps : Z) (nl : netlist) (dflt : Z) (regmap : list (Z * Z))
+Definition opt_case2 (chk : bool) (p reps : Z) (nl : netlist) (dflt : Z) (regmap : list (Z * Z))
     (memmap : list (Z * list (Z * Z))) (inss : list (list (Z * Z))) (outs : list Z)
   : (list (list Z) * list (list Z)) * list (list Z) :=
   let prev := iter_pass (Nat.pred (Z.to_nat reps)) (opt_pass p) nl in
@@ -53,10 +53,12 @@ Definition opt_case (p reps : Z) (nl : netlist) (dflt : Z) (regmap : list (Z * Z
   let st0 := init_state nl dflt regmap memmap in
   let '(vs, st) := run nl' dflt (init_state nl' dflt regmap memmap) (map ins_of inss) in
   (* row 0: result is wfb; the input of this application satisfies the API-built
-     assumption; the decidable premise of the pass's preservation theorem holds of it;
+     assumption; the decidable premise of the pass's preservation theorem holds of it
+     (2 = not evaluated: chk = false);
      the initial state satisfies the theorem's steady-state hypothesis *)
   (dump_nl nl',
    [b2z (wfb nl'); b2z (api_built prev);
+    if negb chk then 2 else
     b2z (match p with
          | 0 => optimize_ok prev
          | 1 => constant_propagation_ok prev
@@ -66,12 +68,15 @@ Definition opt_case (p reps : Z) (nl : netlist) (dflt : Z) (regmap : list (Z * Z
          | 5 => unlistened_stage_ok prev
          | _ => true
          end);
+    if negb chk then 2 else
     b2z (match p with
          | 0 => optimize_steadyb prev (sregs st0)
          | 1 => constant_propagation_steadyb prev (sregs st0)
          | _ => true
          end)]
    :: map (fun v => map v outs) vs).
+
+Definition opt_case := opt_case2 true.
 
 (* first-pass folding decisions: [dest; kind; payload] per net of the dump
    (kind 0 keep, 1 const, 2 wire, 3 not) *)
